@@ -414,5 +414,66 @@ func runC07(c *Ctx, _ []string) {
 			break
 		}
 	}
+	// free-running: a task failing in any batch (not only the first one a Read call starts) is reported by a Read call,
+	// whatever the size of the caller's buffer; nothing hangs
+	{
+		const bs, nb = 1024, 8
+		data := make([]byte, nb*bs)
+		for i := range data {
+			data[i] = byte(i*31 + i>>7)
+		}
+		sink := &faultSink{}
+		w, _ := kio.NewWriter(sink, "NONE", "NONE", bs, 1, 32, 0, false)
+		w.Write(data)
+		w.Close()
+		// payload of block k: located by its content
+		for k := 0; k < nb; k++ {
+			off := bytes.Index(sink.data, data[k*bs+8:k*bs+40])
+			if off < 0 {
+				continue
+			}
+			bad := append([]byte{}, sink.data...)
+			bad[off+3] ^= 0x10
+			for jobs := 1; jobs <= 4; jobs++ {
+				for _, bl := range []int{100, 1024, 3000, 5000, 65536} {
+					c.Count("evaluations", 1)
+					c.Hist("mode", "late-failure")
+					nontrivial++
+					done := make(chan error, 1)
+					total := 0
+					go func() {
+						rd, err := kio.NewReaderWithCtx(stdio.NopCloser(bytes.NewReader(bad)), map[string]any{"jobs": uint(jobs)})
+						if err != nil {
+							done <- err
+							return
+						}
+						buf := make([]byte, bl)
+						for i := 0; i < 1000; i++ {
+							n, err := rd.Read(buf)
+							total += n
+							if err != nil {
+								done <- err
+								return
+							}
+						}
+						done <- nil
+					}()
+					var err error
+					select {
+					case err = <-done:
+					case <-time.After(20 * time.Second):
+						c.Violation(map[string]any{"what": "Read does not return after a task failure", "block": k, "jobs": jobs, "buf": bl, "key": "impl:late-failure hang"})
+						c.Stats["aborted_after_hang"] = true
+						c.Stats["distinct_nontrivial"] = nontrivial
+						return
+					}
+					if err == nil || err == stdio.EOF {
+						c.Violation(map[string]any{"what": fmt.Sprintf("failure of the task of block %d reported by no Read call (jobs=%d, buffer %d): %d bytes then %v", k+1, jobs, bl, total, err),
+							"block": k, "jobs": jobs, "buf": bl, "key": "impl:task failure not reported by Read"})
+					}
+				}
+			}
+		}
+	}
 	c.Stats["distinct_nontrivial"] = nontrivial
 }
